@@ -117,6 +117,8 @@ def run(ctx):
     npair = 60 if quick else 250
     Q = 4
     for ci in range(ncell):
+        # the same geometry in a much smaller / larger length unit (power of two: every float operation scales exactly)
+        Qs = Q / [1.0, 2.0 ** -32, 2.0 ** 24][int(rng.integers(0, 3))]
         small = bool(rng.random() < .5)          # (options drawn independently; no modular coupling) # small cells: the true-nearest clause is checked as well
         if small:
             L = rng.integers(2, 5, 3) * 4
@@ -135,7 +137,7 @@ def run(ctx):
             v = [[int(sg[j] * row[perm[j]]) for j in range(3)] for row in v]
         o = [int(x) for x in rng.integers(-20, 21, 3)] if rng.random() < .6 else [0, 0, 0]
         pbc = [bool(x) for x in rng.integers(0, 2, 3)]
-        box = _box(am, v, o, Q)
+        box = _box(am, v, o, Qs)
         V = np.array(v)
 
         # integer numerators: relative quarters only when cell entries are multiples of 4
@@ -154,23 +156,23 @@ def run(ctx):
         # strongly tilted cell
         ncl = npair // 3
         P1[:ncl] = P0[:ncl] + rng.integers(-6, 7, (ncl, 3))
-        f0, f1 = P0 / Q, P1 / Q
+        f0, f1 = P0 / Qs, P1 / Qs
         tag = 'cell%d' % ci
         try:
             dv = am.dvect(f0, f1, box, pbc)
             dm = am.dmag(f0, f1, box, pbc)
-            recs += _rec_rows('dvect', v, o, pbc, P0, P1, dv, Q, small and spread == (0, 1), tag, 'dv')
-            recs += _rec_rows('dmag', v, o, pbc, P0, P1, dm, Q, False, tag, 'dm')
+            recs += _rec_rows('dvect', v, o, pbc, P0, P1, dv, Qs, small and spread == (0, 1), tag, 'dv')
+            recs += _rec_rows('dmag', v, o, pbc, P0, P1, dm, Qs, False, tag, 'dm')
             # |dvect| = dmag row by row is implied: both are compared with the same Min27
             # one-to-many, many-to-one, list input, 1-D input
             dv1 = am.dvect(f0[0], f1, box, pbc)
-            recs += _rec_rows('dvect', v, o, pbc, P0[:1], P1, dv1, Q, False, tag + ':1toN', 'dv')
+            recs += _rec_rows('dvect', v, o, pbc, P0[:1], P1, dv1, Qs, False, tag + ':1toN', 'dv')
             dvn = am.dvect(f0.tolist(), f1[3].tolist(), box, tuple(pbc))
-            recs += _rec_rows('dvect', v, o, pbc, P0, P1[3:4], dvn, Q, False, tag + ':Nto1list', 'dv')
+            recs += _rec_rows('dvect', v, o, pbc, P0, P1[3:4], dvn, Qs, False, tag + ':Nto1list', 'dv')
             dm1 = am.dmag(f0[2], f1, box, pbc)
-            recs += _rec_rows('dmag', v, o, pbc, P0[2:3], P1, dm1, Q, False, tag + ':1toN', 'dm')
+            recs += _rec_rows('dmag', v, o, pbc, P0[2:3], P1, dm1, Qs, False, tag + ':1toN', 'dm')
             dmn = am.dmag(f0.tolist(), f1[5].tolist(), box, pbc)
-            recs += _rec_rows('dmag', v, o, pbc, P0, P1[5:6], dmn, Q, False, tag + ':Nto1list', 'dm')
+            recs += _rec_rows('dmag', v, o, pbc, P0, P1[5:6], dmn, Qs, False, tag + ':Nto1list', 'dm')
             for (a, b) in ((1, 7), (7, 1), (7, 7), (1, 1)):
                 outv = am.dvect(f0[:a], f1[:b], box, pbc)
                 recs.append({'ev': 'shape', 'n0': a, 'n1': b, 'nout': int(len(outv)), 'refused': False, 'tag': tag})
@@ -194,25 +196,25 @@ def run(ctx):
             system = am.System(atoms=am.Atoms(pos=f0.copy()), box=box, pbc=pbc)
             i, j = int(rng.integers(0, npair)), int(rng.integers(0, npair))
             d = system.dvect(i, j)
-            recs += _rec_rows('dvect', v, o, pbc, P0[i:i + 1], P0[j:j + 1], d, Q, False, tag + ':sys(i,j)', 'dv')
+            recs += _rec_rows('dvect', v, o, pbc, P0[i:i + 1], P0[j:j + 1], d, Qs, False, tag + ':sys(i,j)', 'dv')
             d = system.dvect(-1, slice(0, 6))
-            recs += _rec_rows('dvect', v, o, pbc, P0[-1:], P0[0:6], d, Q, False, tag + ':sys(-1,slice)', 'dv')
+            recs += _rec_rows('dvect', v, o, pbc, P0[-1:], P0[0:6], d, Qs, False, tag + ':sys(-1,slice)', 'dv')
             d = system.dvect([0, 2, 4], f1[:3])
-            recs += _rec_rows('dvect', v, o, pbc, P0[[0, 2, 4]], P1[:3], d, Q, False, tag + ':sys(list,pos)', 'dv')
+            recs += _rec_rows('dvect', v, o, pbc, P0[[0, 2, 4]], P1[:3], d, Qs, False, tag + ':sys(list,pos)', 'dv')
             d = system.dmag(f1[4], j)
-            recs += _rec_rows('dmag', v, o, pbc, P1[4:5], P0[j:j + 1], [d], Q, False, tag + ':sysdmag(pos,j)', 'dm')
+            recs += _rec_rows('dmag', v, o, pbc, P1[4:5], P0[j:j + 1], [d], Qs, False, tag + ':sysdmag(pos,j)', 'dm')
             d = system.dmag(slice(None), f1)
-            recs += _rec_rows('dmag', v, o, pbc, P0, P1, d, Q, False, tag + ':sysdmag(all,pos)', 'dm')
+            recs += _rec_rows('dmag', v, o, pbc, P0, P1, d, Qs, False, tag + ':sysdmag(all,pos)', 'dm')
             # displacement between two systems under each reference
             v2 = [[int(2 * x) for x in row] for row in v] if rng.random() < .5 else v
             pbc2 = [not pbc[0], pbc[1], pbc[2]]
-            sys1 = am.System(atoms=am.Atoms(pos=f1.copy()), box=_box(am, v2, o, Q), pbc=pbc2)
+            sys1 = am.System(atoms=am.Atoms(pos=f1.copy()), box=_box(am, v2, o, Qs), pbc=pbc2)
             d = am.displacement(system, sys1)
-            recs += _rec_rows('dvect', v2, o, pbc2, P0, P1, d, Q, False, tag + ':disp(final)', 'dv')
+            recs += _rec_rows('dvect', v2, o, pbc2, P0, P1, d, Qs, False, tag + ':disp(final)', 'dv')
             d = am.displacement(system, sys1, box_reference='initial')
-            recs += _rec_rows('dvect', v, o, pbc, P0, P1, d, Q, False, tag + ':disp(initial)', 'dv')
+            recs += _rec_rows('dvect', v, o, pbc, P0, P1, d, Qs, False, tag + ':disp(initial)', 'dv')
             d = am.displacement(system, sys1, box_reference=None)
-            recs += _rec_rows('plain', v, o, pbc, P0, P1, d, Q, False, tag + ':disp(None)', 'dv')
+            recs += _rec_rows('plain', v, o, pbc, P0, P1, d, Qs, False, tag + ':disp(None)', 'dv')
         except Exception as e:
             ctx.violation('System.dvect/dmag/displacement raised %s on valid input' % excname(e), repr(e),
                           {'v': v, 'o': o, 'pbc': pbc})
